@@ -98,6 +98,10 @@ func payloadMutator(devs map[string]bool) func([]byte) []byte {
 		if devs["extraPayloadField"] {
 			top["extra"] = json.RawMessage(`{"n":1}`)
 		}
+		if devs["extraPayloadFieldDescName"] {
+			// an extra member NEXT TO targetArtifact that is named like a member of a descriptor
+			top[[]string{"digest", "size", "annotations", "urls", "artifactType"}[len(tb)%5]] = json.RawMessage(`"sha256:0000"`)
+		}
 		if devs["altSpellingTarget"] {
 			renameKey(top, "targetArtifact", "TargetArtifact")
 		}
